@@ -286,20 +286,6 @@ func (p *chunkPayloadData) abandoned() bool {
 	return p._abandoned && p._allInflight
 }
 
-// givenUp reports whether the message this chunk belongs to has been
-// abandoned, whether or not all of its fragments have been sent yet. Every
-// decision to transmit a chunk again asks this: abandoned() additionally waits
-// for the last fragment to be in flight (only then can a FORWARD-TSN name the
-// whole message), and until then the fragments already sent must not be
-// retransmitted beyond the stream's limit.
-func (p *chunkPayloadData) givenUp() bool {
-	if p.head != nil {
-		return p.head._abandoned
-	}
-
-	return p._abandoned
-}
-
 func (p *chunkPayloadData) setAbandoned(abandoned bool) {
 	if p.head != nil {
 		p.head._abandoned = abandoned
